@@ -38,6 +38,7 @@ type ConcCfg struct {
 	AbortHammer bool // C14: many failing (aborting) requests next to lookups/creates on the same directory; dead handles next to allocations
 	Evict    bool // one client walks over > 100 cold inodes (the inode cache holds 100) while the others work on a few files and one directory
 	DirMoves bool // directories are moved between parents concurrently (cycles, '..' of the moved directory)
+	WideRoot bool // the root holds > 32 entries (two directory blocks); whole listings of it race with removals/creations at both ends of it
 	Focus    bool // namespace races on two names in one directory whose children have smaller numbers
 	Procs    int
 }
@@ -251,6 +252,30 @@ func genConcOp(r *Rng, w *world, mine *[][]byte, uid *uint64, cfg ConcCfg) *Op {
 			return &Op{K: OpRmdir, H: any(), Name: r.PickS([]string{"m1", tn()})}
 		default:
 			return &Op{K: OpReaddirplus, H: any(), Count: 1 << 20, Dircount: 1 << 20}
+		}
+	}
+	if cfg.WideRoot {
+		root := w.dirs[0]
+		wn := func() string {
+			// both ends of the listing: the first and the last block of the directory
+			if r.Intn(2) == 0 {
+				return fmt.Sprintf("w%02d", r.Intn(6))
+			}
+			return fmt.Sprintf("w%02d", 34+r.Intn(6))
+		}
+		switch x := r.Intn(100); {
+		case x < 30:
+			return &Op{K: OpReaddirplus, H: root, Count: 1 << 20, Dircount: 1 << 20}
+		case x < 40:
+			return &Op{K: OpReaddir, H: root, Count: 1 << 20}
+		case x < 75:
+			return &Op{K: OpRemove, H: root, Name: wn()}
+		case x < 88:
+			return &Op{K: OpCreate, H: root, Name: wn()}
+		case x < 94:
+			return &Op{K: OpRename, H: root, Name: wn(), H2: root, Name2: wn()}
+		default:
+			return &Op{K: OpLookup, H: root, Name: wn()}
 		}
 	}
 	if cfg.FileFocus {
@@ -493,6 +518,11 @@ func runOneHistory(cfg ConcCfg, seed uint64, cas, h int, res *ConcRes) {
 		w.dirs = append(w.dirs, d1)
 		w.files = append(w.files, f1, f2)
 	}
+	if cfg.WideRoot {
+		for i := 0; i < 40; i++ {
+			mk(OpCreate, srv.Root, fmt.Sprintf("w%02d", i))
+		}
+	}
 	if cfg.DirMoves {
 		w.tdirs = [][]byte{srv.Root}
 		crossing := h%2 == 0
@@ -663,7 +693,10 @@ func runOneHistory(cfg ConcCfg, seed uint64, cas, h int, res *ConcRes) {
 				}
 				hmu.Lock()
 				hist = append(hist, ho)
-				if op.K == OpReaddirplus && rr.Stat == stOK {
+				if op.K == OpReaddirplus && rr.Stat == stOK && !cfg.WideRoot {
+					// (wide-root histories never change a file: the children's
+					// attributes say nothing, and 40 sub-operations per listing
+					// are more than the checker can take)
 					for _, e := range rr.Ents {
 						if e.HasAttr && e.HasFH && e.Name != "." && e.Name != ".." {
 							hist = append(hist, &histOp{Client: c, Kind: "attr", Attr: e, Op: op, Res: rr, Call: ho.Call, Ret: ho.Ret})
